@@ -104,7 +104,7 @@ def main(argv=None):
         'evaluations': agg['evals'],
         'distinct_nontrivial': agg['nontrivial'],
         'rule': mod.RULE,
-        'exhaustive': not agg['harness_errors'],
+        'exhaustive': not agg['harness_errors'] and not agg.get('stopped_early'),
         'states_per_level': levels,
         'distinct_states': agg['distinct'],
         'distinct_observed_outcomes': len(agg['outcomes']),
